@@ -283,6 +283,7 @@ func mGetEx(m *Model, s *Session, a []string) Reply {
 		m.touch(s.DB, a[1])
 		if exp <= m.Now {
 			m.del(s.DB, a[1])
+			m.Lazy++
 		}
 	case 2:
 		if o.Exp != 0 {
@@ -339,6 +340,9 @@ func mSetRange(m *Model, s *Session, a []string) Reply {
 	if off < 0 {
 		return Err("ERR offset is out of range")
 	}
+	if off > 512*1024*1024 {
+		off = 512*1024*1024 + 1 // avoid overflow below; still too large
+	}
 	o, wt := m.typed(s.DB, a[1], 's')
 	if wt {
 		return errWrongType
@@ -380,11 +384,13 @@ func (m *Model) incrBy(s *Session, key string, d int64) Reply {
 		var ok bool
 		v, ok = parseInt(o.S)
 		if !ok {
-			if LaxInt(o.S) {
-				m.Unspec++
-				return Any("stored value " + strconv.Quote(o.S) + " is an integer for Go but not for Redis")
+			if !LaxInt(o.S) {
+				return errNotInt
 			}
-			return errNotInt
+			// "+1", "01", "-0": integers for Go's parser, not for Redis' string2ll. Treated as
+			// unspecified: the model follows the lenient reading and counts the step.
+			m.Unspec++
+			v, _ = strconv.ParseInt(o.S, 10, 64)
 		}
 	}
 	if (d > 0 && v > math.MaxInt64-d) || (d < 0 && v < math.MinInt64-d) {
@@ -479,7 +485,8 @@ func mLcs(m *Model, s *Session, a []string) Reply {
 	oa, wt1 := m.typed(s.DB, a[1], 's')
 	ob, wt2 := m.typed(s.DB, a[2], 's')
 	if wt1 || wt2 {
-		return Err("ERR The specified keys must contain string values")
+		// Redis words this as a plain ERR; WRONGTYPE (what the keyspace property asks for) is accepted too
+		return Pred("error (ERR or WRONGTYPE)", func(r Reply) bool { return r.IsErr() && (r.ErrClass() == "ERR" || r.ErrClass() == "WRONGTYPE") })
 	}
 	if wantIdx && wantLen {
 		return Err("ERR If you want both the length and indexes, please just use IDX.")
